@@ -173,7 +173,7 @@ func runRelayOnce(c Case, bound time.Duration) (v kit.Verdict, slow bool) {
 	if isGRPC(c.CT) {
 		c.C.Plain, c.S.Plain = false, false
 	}
-	c.C.AbortAt, c.S.AbortAt = 0, 0
+	c.C.AbortAt, c.S.AbortAt, c.SCT = 0, 0, ""
 	c.C, c.S = fitFrames(c.C), fitFrames(c.S)
 	if normEnd(c.C.End) == "absent" {
 		c.C.End = "last"
